@@ -261,7 +261,7 @@ func render(t *rapid.T, b []byte, label string) string {
 	return s
 }
 
-var nonHexKinds = []string{"tail-after-full-length", "tail-after-full-length", "embedded-0x-inserted", "embedded-0x-replacing", "odd-length", "rune-g", "rune-space", "rune-dash", "rune-multibyte", "rune-nul", "0x0x-prefix", "leading-space", "trailing-newline", "0x-odd", "x-only-prefix"}
+var nonHexKinds = []string{"byte-next-to-hex-ranges", "byte-next-to-hex-ranges", "tail-after-full-length", "tail-after-full-length", "embedded-0x-inserted", "embedded-0x-replacing", "odd-length", "rune-g", "rune-space", "rune-dash", "rune-multibyte", "rune-nul", "0x0x-prefix", "leading-space", "trailing-newline", "0x-odd", "x-only-prefix"}
 
 // spoil turns a well-formed rendering into a non-hex string by one named edit.
 func spoil(t *rapid.T, s string, label string) (string, string) {
@@ -281,6 +281,11 @@ func spoil(t *rapid.T, s string, label string) (string, string) {
 		extra := strings.Repeat("0123456789abcdefABCDEF", 2)[:2*rapid.IntRange(1, 20).Draw(t, label+"Extra")]
 		junk := rapid.SampledFrom([]string{"zz", "g", "\n ", "0g", " ", "-", "é"}).Draw(t, label+"Junk")
 		return s + extra + junk, kind
+	case "byte-next-to-hex-ranges":
+		// one character replaced by a byte that is NOT a hex digit but sits next to the digit / letter ranges or is a
+		// digit or letter with one bit changed (0x10..0x19 = '0'..'9' without bit 5, 0x40/'G'/'`'/'g', '/' and ':' ...)
+		cands := []byte{'/', ':', '@', 'G', '`', 'g', 0x10, 0x11, 0x15, 0x19, 0x1a, 0x21, 0x26, 0x27, 0xb0, 0xb9, 0xc1, 0xe1, 0xe6, 0x7f, 0x80, 0xff, 'O', 'l', 'x', 'X'}
+		return put(string([]byte{cands[rapid.IntRange(0, len(cands)-1).Draw(t, label+"Byte")]})), kind
 	case "embedded-0x-inserted":
 		// the characters "0x" appear again INSIDE the string (not as its prefix)
 		at := 1 + pos
